@@ -19,6 +19,10 @@ def jobs(tier):
                 J.append(dict(id='dlim_%s_%s_%s' % (name, wn, 'close' if c else 'open'), harness='h_dlim', props=['C10', 'C07'] if f == 3 else ['C10'], unwind=12, defs=dict(FMT=f, WHICH=w, CLOSE=c), timeout=300, mem_gb=4,
                               desc='%s parser %s: max_nesting_depth_exceeded iff depth+1 > limit, else depth+1 and one state pushed regardless of the claimed length%s%s' % (name, wn, '; end restores' if c else '', '; UBJSON max_items' if f == 3 else ''),
                               bound='any depth 0..limit, any limit, 10 symbolic input bytes'))
+    for bt, btn, need in ((0x01, 'double', 8), (0x08, 'bool', 1), (0x09, 'datetime', 8), (0x0a, 'null', 0), (0x06, 'undefined', 0), (0x10, 'int32', 4), (0x11, 'timestamp', 8), (0x12, 'int64', 8)):
+        for n in sorted(set([need, max(need - 1, 0)] + ([0, need + 1] if tier == 'thorough' else []))):
+            J.append(dict(id='bson_value_%s_n%d' % (btn, n), harness='h_bson_value', props=['C07'], unwind=11, defs=dict(FMT=4, BTYPE=bt, BN=n), timeout=300, mem_gb=4,
+                          desc='bson parser read_value(%s): payload width, little-endian, signedness and tag per bsonspec.org; truncated payload is an error' % btn, bound='every payload, %d input bytes' % n))
     for w, wn in ((0, 'end_document'), (1, 'end_array')):
         J.append(dict(id='bson_%s' % wn, harness='h_bson_end', props=['C07'], unwind=12, defs=dict(FMT=4, WHICH=w), timeout=300, mem_gb=4, desc='bson parser %s: consumed bytes must equal the declared length (size_mismatch otherwise), then the parent accounts for them' % wn, bound='any declared length, any consumed count < 2^40'))
     for w, wn in ((0, 'begin_array'), (1, 'begin_classical_array_storage'), (2, 'begin_object')):
